@@ -370,10 +370,15 @@ fn fault_kind(i: usize) -> io::ErrorKind {
     [Other, Interrupted, UnexpectedEof, InvalidData, WouldBlock, TimedOut, Interrupted, BrokenPipe][i % 8]
 }
 
+/// `next()` calls made on an instrumented lender *after* it had returned `None` and before it was
+/// rewound, in the current build (C20: every attempt after the first reads a rewound lender)
+pub static LATE_READS: AtomicUsize = AtomicUsize::new(0);
+
 pub struct VecLender<K, T: ?Sized> {
     items: Arc<Vec<K>>,
     limit: usize,
     pos: usize,
+    ended: bool,
     pass: usize,
     fault: LFault,
     passes: Arc<AtomicUsize>,
@@ -386,6 +391,7 @@ impl<K, T: ?Sized> VecLender<K, T> {
             items,
             limit,
             pos: 0,
+            ended: false,
             pass: 1,
             fault,
             passes,
@@ -398,6 +404,9 @@ impl<'lend, K, T: ?Sized + 'lend> Lending<'lend> for VecLender<K, T> {
 }
 impl<K: Borrow<T>, T: ?Sized + 'static> Lender for VecLender<K, T> {
     fn next(&mut self) -> Option<Lend<'_, Self>> {
+        if self.ended {
+            LATE_READS.fetch_add(1, Ordering::SeqCst);
+        }
         if let LFault::At { pass, idx } = self.fault {
             if pass == self.pass && idx == self.pos {
                 self.pos += 1;
@@ -405,6 +414,7 @@ impl<K: Borrow<T>, T: ?Sized + 'static> Lender for VecLender<K, T> {
             }
         }
         if self.pos >= self.limit {
+            self.ended = true;
             None
         } else {
             let r = self.items[self.pos].borrow();
@@ -423,6 +433,7 @@ impl<K: Borrow<T>, T: ?Sized + 'static> RewindableIoLender<T> for VecLender<K, T
         }
         self.pass += 1;
         self.pos = 0;
+        self.ended = false;
         self.passes.store(self.pass, Ordering::SeqCst);
         Ok(self)
     }
@@ -1401,6 +1412,8 @@ pub struct St {
     vals: Vec<u64>,
     /// passes of the key lender in the last build (0 = unknown)
     pub last_passes: usize,
+    /// `LATE_READS` of the last build
+    pub last_late: usize,
     pub last_reply: String,
 }
 
@@ -1476,6 +1489,8 @@ impl St {
         self.member_ids.clear();
         self.vals.clear();
         self.last_passes = 0;
+        self.last_late = 0;
+        LATE_READS.store(0, Ordering::SeqCst);
         let n = spec.n;
         let reply;
         match guarded_build(&spec) {
@@ -1491,6 +1506,7 @@ impl St {
             Guarded::Panic => reply = "panic".to_string(),
             Guarded::Done(out) => {
                 self.last_passes = out.passes;
+                self.last_late = LATE_READS.load(Ordering::SeqCst);
                 if out.passes > 0 {
                     ctx.stat(&format!("attempts:{}", Ord::min(out.passes, 9)));
                     if out.passes >= 9 && std::env::var("FUNC_DEBUG").is_ok() {
@@ -1584,6 +1600,13 @@ impl St {
             (line, t)
         };
         ctx.op(line);
+        if t[0] == "lender_protocol" {
+            // reads of an exhausted, not yet rewound instrumented lender during the last build
+            let r = format!("ok {}", self.last_late);
+            ctx.check_oracle("ok 0", &r);
+            ctx.reply(&r);
+            return;
+        }
         if t[0] == "attempts" {
             // passes of the instrumented key lender = calls of try_seed
             let r = format!("ok {}", self.last_passes);
@@ -2259,6 +2282,9 @@ fn run_case(ctx: &mut Ctx, spec: &Spec, o: &Opts) {
     ctx.stat(&format!("n:{}", nclass(spec.n)));
     ctx.stat(&format!("cfg:off{}:lm{:?}:th{}", b01(spec.off), spec.lm, spec.th));
     st.exec(ctx, &spec.line(), false);
+    if spec.lk == "vec" && !spec.take {
+        st.exec(ctx, "lender_protocol", false);
+    }
     if spec.lk == "vec"
         && !spec.take
         && !spec.short
